@@ -132,6 +132,12 @@ RES_MODIFIES = ['Node.todo', 'Node.doing', 'Node.do', 'Node.status', 'Node.runid
                 'dawgie.pl.schedule.err', 'dawgie.pl.schedule.suc']
 
 
+def wellformed_reply(m):
+    """assumption on the peer (worker.cluster.execute builds replies this way): a response names its job and carries its timing"""
+    return Implies(MSG.get(m, 'type') == MTYPE.const('response'),
+                   And(Not(Opt(ATOM).is_none(MSG.get(m, 'jobid'))), Not(Opt(Ref('Timing')).is_none(MSG.get(m, 'timing')))))
+
+
 class hand_res_stub:
     modifies = RES_MODIFIES
 
@@ -140,6 +146,10 @@ class hand_res_stub:
 class hand_process(ContractBase):
     params = {'self': HAND, 'msg': MSG}
     modifies = [WK, SENT, CLOSED, 'Hand._Hand__incarnation'] + hand_res_stub.modifies
+
+    def requires(c):
+        m = c['msg']
+        return {'peer.replies-are-well-formed': wellformed_reply(m)}
 
     def ensures(c):
         s, m = c['self'], c['msg']
